@@ -454,3 +454,25 @@ theorem unitValuesRow_periodic (S s H : Nat) (V : List Int) (hS : 0 < S) (hs : 0
       simpa using this
 
 end Usid.UV
+
+namespace Usid.UV
+open Usid Usid.Grid
+
+theorem mapME_of_forall {β γ : Type} (f : β → Except PyErr γ) (g : β → γ) : ∀ (l : List β),
+    (∀ x ∈ l, f x = .ok (g x)) → mapME f l = .ok (l.map g)
+  | [], _ => rfl
+  | x :: xs, h => by
+    unfold mapME
+    rw [h x (by simp), mapME_of_forall f g xs (fun y hy => h y (List.mem_cons_of_mem _ hy))]
+    rfl
+
+/-- the index row of dimension `d` of a regular grid is a periodic row -/
+theorem gridRow_periodic (sz : Nat → Nat) (pre post : List Nat) (d : Nat) (hd : d ∉ pre) :
+    gridRow sz (pre ++ d :: post) d = periodicRow (pre.map sz).prod (sz d) (post.map sz).prod := by
+  unfold gridRow periodicRow gridIdx
+  rw [stride_split sz pre post d hd, npoints_split]
+  have : (pre.map sz).prod * sz d * (post.map sz).prod = (post.map sz).prod * ((pre.map sz).prod * sz d) := by
+    rw [Nat.mul_comm]
+  rw [this]
+
+end Usid.UV
